@@ -36,6 +36,7 @@ def main : IO UInt32 := do
   | ["model", "symexpr"] => loopState stdin stdout SymExpr.driverStep {}
   | ["model", "loader"] => loopPure stdin stdout Loader.driverStep
   | ["model", "loaderx"] => loopPure stdin stdout Loader.driverStepX
+  | ["model", "pbwire"] => loopPure stdin stdout Pb.driverStep
   | _ => IO.eprintln s!"unknown model line: {first}"; return 2
   stdout.flush
   return 0
